@@ -6,6 +6,8 @@ FLAV = {
     "a": "Favour changes that look like a plausible refactor, optimisation or 'clean-up' a maintainer might make (restructured loop, changed comparison, helper extracted, reordered statements, a fast path added).",
     "b": "Favour changes where two sites each look fine alone but break the property together, or where the breakage only shows for boundary sizes/states, a particular order of operations, a particular pre-existing state on disk, or a fault/interruption at a particular moment.",
     "c": "Favour changes to the less obvious code paths the property depends on (error handling, clean-up, the second of two similar branches, helper modules the main path calls into), and changes that only show after a particular earlier event (an interrupted run, an earlier invocation, a leftover file).",
+    "d": "Favour subtle changes: ones that leave the common path byte-identical and diverge only in a rarely taken branch, at larger scale, for particular size relations, or after a particular earlier event; assume a diligent reviewer will run the obvious spot checks (a handful of sizes, one crash, one re-run) and try to produce something those spot checks would miss while it still genuinely breaks the property as stated.",
+    "e": "Favour changes in modules the property depends on indirectly (shared helpers, formatters, parsers, data classes, naming/sorting utilities, logging set-up) rather than at the most obvious site, and changes introduced while 'improving' performance or robustness (caching, memoisation, batching writes, reusing objects or file handles, catching exceptions).",
 }
 T = """You are helping to evaluate a verification harness by writing *seeded defects* for an open-source Python project (sanger-tol/agp-tpf-utils: CLI utilities for AGP/TPF genome assembly files with a streaming FASTA indexer/writer). This is authorised mutation-testing work on a scratch copy; nothing you write is ever merged.
 
